@@ -283,6 +283,16 @@ static std::string dispatch(const std::vector<std::string>& t) {
   if (op == "v.dump") return dumpV();
   if (op == "m.dump") return dumpMat(MM);
   if (op == "s.dump") return dumpMat(SS);
+  if (op == "s.xdump") {      // every member: dim_ row_ col_ idf_ tol_ and the packed elements
+    std::string s = "dump live=" + std::to_string(g_live - g_base) + " ub=" + std::to_string(g_ub_null);
+    for (int k = 0; k < NS; k++) {
+      s += " |";
+      if (!SS[k]) s += " -";
+      else s += " " + std::to_string(SS[k]->dim()) + " " + std::to_string(SS[k]->rows()) + " " + std::to_string(SS[k]->cols())
+              + " " + std::to_string(SS[k]->nullity()) + " " + vp::hex(SS[k]->cholTol()) + raw(*SS[k]);
+    }
+    return s;
+  }
   if (t.size() < 2 || !slot(t[1], i)) return "bad-op";
   if (t.size() >= 3 && (op.find("copy") != std::string::npos || op.find("move") != std::string::npos ||
                         op.find("assign") != std::string::npos) && !slot(t[2], j)) return "bad-op";
@@ -306,6 +316,14 @@ static std::string dispatch(const std::vector<std::string>& t) {
   if (op == "v.set"     && t.size() == 4 && VV[i]) { int k = std::atoi(t[2].c_str()); if (k < 1 || k > VV[i]->dim()) return "bad-op"; (*VV[i])(k) = vp::unhex(t[3]); return "ok"; }
   if (op == "v.fill"    && t.size() == 3 && VV[i]) { VV[i]->set_all(vp::unhex(t[2])); return "ok"; }
   if (op == "v.dtor"    && t.size() == 2 && VV[i]) { VV[i].reset(); return "ok"; }
+  // object histories of Vec (Model/VecObj.lean): every line runs under try/catch in main, objects persist
+  if (op == "v.scale"   && t.size() == 3 && VV[i]) { *VV[i] *= vp::unhex(t[2]); return "ok"; }
+  if ((op == "v.add" || op == "v.sub") && t.size() == 3 && slot(t[2], j) && VV[i] && VV[j]) {
+    if (op == "v.add") *VV[i] += *VV[j]; else *VV[i] -= *VV[j]; return "ok"; }
+  if ((op == "v.plus" || op == "v.minus") && t.size() == 4) { int k = 0;
+    if (!slot(t[2], j) || !slot(t[3], k) || VV[i] || !VV[j] || !VV[k]) return "bad-op";
+    if (op == "v.plus") VV[i].reset(new V(*VV[j] + *VV[k])); else VV[i].reset(new V(*VV[j] - *VV[k]));
+    return "ok"; }
   // ---- Mat
   if (op == "m.ctor"    && t.size() == 4 && !MM[i]) { MM[i].reset(new M(std::atoi(t[2].c_str()), std::atoi(t[3].c_str()))); return "ok"; }
   if (op == "m.copy"    && t.size() == 3 && !MM[i] && MM[j]) { MM[i].reset(new M(*MM[j])); return "ok"; }
@@ -321,7 +339,17 @@ static std::string dispatch(const std::vector<std::string>& t) {
   if (op == "m.scale"   && t.size() == 3 && MM[i]) { *MM[i] *= vp::unhex(t[2]); return "ok"; }
   if (op == "m.dtor"    && t.size() == 2 && MM[i]) { MM[i].reset(); return "ok"; }
   // ---- SymMat
-  if (op == "s.ctor"    && t.size() == 3 && !SS[i]) { SS[i].reset(new S(std::atoi(t[2].c_str()))); return "ok"; }
+  if (op == "s.ctor"    && t.size() == 3 && !SS[i]) { if (std::atoi(t[2].c_str()) < 0) return "bad-op"; SS[i].reset(new S(std::atoi(t[2].c_str()))); return "ok"; }
+  // object histories of SymMat (Model/SymObj.lean)
+  if (op == "s.ctor2"   && t.size() == 4 && !SS[i]) { int r = std::atoi(t[2].c_str()), c = std::atoi(t[3].c_str());
+    if (r < 0 || c < 0) return "bad-op"; SS[i].reset(new S(r, c)); return "ok"; }
+  if (op == "s.reset2"  && t.size() == 4 && SS[i]) { SS[i]->reset(std::atoi(t[2].c_str()), std::atoi(t[3].c_str())); return "ok"; }
+  if (op == "s.scale"   && t.size() == 3 && SS[i]) { *SS[i] *= vp::unhex(t[2]); return "ok"; }
+  if (op == "s.tol"     && t.size() == 3 && SS[i]) { SS[i]->cholTol(vp::unhex(t[2])); return "ok"; }
+  if ((op == "s.add" || op == "s.sub") && t.size() == 3 && slot(t[2], j) && SS[i] && SS[j]) {
+    if (op == "s.add") *SS[i] += *SS[j]; else *SS[i] -= *SS[j]; return "ok"; }
+  if (op == "s.chol"    && t.size() == 2 && SS[i]) { SS[i]->cholDec(); return "ok"; }
+  if (op == "s.invert"  && t.size() == 2 && SS[i]) { SS[i]->invert(); return "ok"; }
   if (op == "s.copy"    && t.size() == 3 && !SS[i] && SS[j]) { SS[i].reset(new S(*SS[j])); return "ok"; }
   if (op == "s.move"    && t.size() == 3 && !SS[i] && SS[j]) { SS[i].reset(new S(std::move(*SS[j]))); return "ok"; }
   if (op == "s.assign"  && t.size() == 3 && SS[i] && SS[j]) { *SS[i] = *SS[j]; return "ok"; }
